@@ -389,6 +389,7 @@ func (s *Sys) Apply(op Op, live bool) (obs string) {
 			s.r.Sample(op.Kind+":"+classOf(obs), Case{g.pool, append([]Op{}, s.hist...)})
 		}
 	}()
+	defer verifsched.HoldClock()()
 	defer reg.OpBegin(fmt.Sprintf("pool %v: %s(%s) after %d ops", g.pool, op.Kind, ipn.String(), len(s.hist)-1))()
 	before := fmt.Sprint(s.bits())
 	nHeld := int64(len(s.held))
